@@ -607,7 +607,18 @@ func executeScript(
 	case <-done:
 	case <-ctx.Done():
 		vm.Abort()
-		<-done
+		// Run resets the abort flag when it starts, repeat Abort until Run
+		// returns so that an early cancellation is not lost.
+		ticker := time.NewTicker(time.Millisecond)
+		for waiting := true; waiting; {
+			select {
+			case <-done:
+				waiting = false
+			case <-ticker.C:
+				vm.Abort()
+			}
+		}
+		ticker.Stop()
 		if err == nil {
 			err = ctx.Err()
 		}
